@@ -1,5 +1,9 @@
 """C02 cases: multiplication."""
 from .common import *
+
+# other public routes to this property's operations (check.py step 2d): the neighbour generator's requests whose
+# operation matches are part of this run, answered by the neighbour's harness bin
+NEIGHBOURS = {"C17": r"(mul_|product)", "C18": r"nt_((checked_|wrapping_|saturating_)?mul|mul_add)"}
 from . import widthsweep as _ws
 
 # thorough tier: `widths` answers the unsigned overflowing_mul sweep of gen/widthsweep.py, `c02w` (all digit counts of
